@@ -515,6 +515,33 @@ func (w *Wire) waitOrDeadlock(pred func() bool) string {
 	return QWatchdog
 }
 
+// StuckOnMutex reports the stack of a goroutine that has a frame containing
+// frame and sits in sync.(*Mutex).Lock in three looks 300 ms apart (a state
+// that lasts: whoever holds the lock is not going to let go by itself), else "".
+func StuckOnMutex(frame string) string {
+	find := func() (id, stack string) {
+		for _, g := range Stacks() {
+			if strings.Contains(g, frame) && strings.Contains(g, "sync.(*Mutex).Lock") {
+				return goroutineID(g), g
+			}
+		}
+		return "", ""
+	}
+	id, stack := find()
+	if id == "" {
+		return ""
+	}
+	for i := 0; i < 2; i++ {
+		time.Sleep(300 * time.Millisecond)
+		id2, st2 := find()
+		if id2 != id {
+			return ""
+		}
+		stack = st2
+	}
+	return stack
+}
+
 // allParked reports whether every goroutine executing server-side library
 // code is parked (channel, lock, condition variable, wait group), i.e. none is
 // running or runnable. Used to tell "a callback sits on a gate and the rest of
